@@ -81,7 +81,8 @@ pub struct SendSys {
 impl Drop for SendSys {
     fn drop(&mut self) {
         if self.panicked.is_none() {
-            unsafe { std::mem::ManuallyDrop::drop(&mut self.sender) };
+            let s = unsafe { std::mem::ManuallyDrop::take(&mut self.sender) };
+            let _ = catch(std::panic::AssertUnwindSafe(move || drop(s)));
         }
     }
 }
